@@ -72,6 +72,36 @@ CLAIMED = {
         "design_ref": "DESIGN.md §3 C16",
         "note": "Trusted: global state inside swc (interner), hash seeds of dependencies.",
     },
+    "C01": {
+        "technique": "structural necessary conditions over typed HIR: TRAV-ROOT (root dispatch), ORDER (hoisting vs ECMAScript order table, no reordering calls), GROUP (hoisted comma expressions parenthesised), IDENT-MODE wiring, PAREN-WRAP, FANOUT (single use)",
+        "text": "Does NOT decide observational equivalence (that would be a proof of the transformation). Decides structural parts each of which, broken, changes behaviour for some input: every expression is dispatched at its root, operands are hoisted in ECMAScript order and never reordered, hoisted comma expressions and injected sequences are parenthesised, identifier keep/replace wiring, and no input sub-tree is copied into two output positions (finding D3).",
+        "design_ref": "DESIGN.md §3 C01",
+        "note": "Only necessary conditions; the behaviour itself is not decided by this family. Known finding D3 listed by exact key.",
+    },
+    "C02": {
+        "technique": "INVENTORY of constructed AST node kinds vs the documented instrumentation shapes, per-function FANOUT analysis, NOTHING-DROPPED (complete operand processing), print-path wiring",
+        "text": "Does NOT decide tree equality after erasure. Decides that only erasable shapes can be constructed (closed set, `let` and `=` only), that no function copies an input sub-tree into two output positions (finding D3), that operand lists are processed completely and that the visited program is the printed one.",
+        "design_ref": "DESIGN.md §3 C02",
+        "note": "Necessary conditions only. Cross-function duplication is covered only along the hoisting path (C03 MIRROR).",
+    },
+    "C03": {
+        "technique": "counted-effect analysis of the hook argument vector over all structural paths with callee summaries (EFFECT), same-origin provenance (MIRROR), shape/order rules (HOOK-SHAPE, CALL-SIGNATURE, SPREAD-ONCE, ORDER)",
+        "text": "Decides that each operand contributes exactly one hook argument on every path (finding D14), that the reported value is the value left in place, the argument order of the hook and of method-call hooks, identity of callee/receiver between the emitted .call and the reported arguments, and single evaluation of spreads. Run-time equality of values is not decided.",
+        "design_ref": "DESIGN.md §3 C03",
+        "note": "Trusted: Take::map_with_mut runs its closure exactly once.",
+    },
+    "C05": {
+        "technique": "control-dependence of every hook emission on its configuration gate through callers (OP-GATE, METHOD-GATE), provenance of hook names (HOOK-NAMES), JS syntax-tree rule on the prologue template (PROLOGUE), recognised-idiom checks of defaults (DEFAULTS)",
+        "text": "Decides that operator/method hooks are only built behind the matching configuration lookup, that the emitted member name is always a configured replacement name on the constant namespace, that the prologue defines a pass-through for every configured name without overwriting, and every documented default.",
+        "design_ref": "DESIGN.md §3 C05",
+        "note": "Trusted: serde option-name mapping; dst values are identifier names.",
+    },
+    "C08": {
+        "technique": "grammar-position rules on constructed output: PAREN-WRAP, GROUP, PROGRAM-KIND, ARROW-BLOCK, INVENTORY, trailer-is-a-line-comment",
+        "text": "Does NOT decide validity of swc's printed text. Decides the structural conditions the rewriter itself controls: sequences parenthesised, hoisted comma expressions parenthesised, program kind untouched, arrow bodies become blocks, only documented node kinds, trailer on its own comment line.",
+        "design_ref": "DESIGN.md §3 C08",
+        "note": "Trusted: swc code generator prints a valid program for a well-formed tree.",
+    },
 }
 
 PENDING = "check not built yet (implementation in progress; see DESIGN.md)"
